@@ -111,7 +111,14 @@ FAULTS = {
     'api-teardown-2': (None, 'teardown'),
     'api-teardown-4': (None, 'teardown'),
     'api-teardown-6': (None, 'teardown'),
+    # the peer's NOTIFICATION and a local teardown at the same moment (both ends reset the session): crossing
+    # NOTIFICATIONs are legal, but once ExaBGP has read the peer's it must not write its own
+    'teardown-then-notif': (None, 'notification+teardown'),      # API command processed, then the NOTIFICATION arrives in the same instant
+    'teardown+notif': (None, 'notification+teardown'),           # both queued before the daemon runs, command first
+    'notif+teardown': (None, 'notification+teardown'),           # both queued before the daemon runs, NOTIFICATION first
+    'teardown-50ms-notif': (None, 'notification+teardown'),      # the NOTIFICATION arrives 50 ms after the command
 }
+CROSS_NOTIF = wire.frame(wire.NOTIFICATION, wire.encode_notification(6, 4))
 
 BENIGN = ['split-next', 'api-announce', 'wait-1s']
 
@@ -183,7 +190,7 @@ def allowed(fault_class: str, state: str, fault: str, hold: int):
         if state in ('OPENSENT', 'CONNECT'):
             return {(4, 0), (5, 1)}, True
         return {(4, 0), (5, 2)}, True
-    if fault_class == 'teardown':
+    if fault_class in ('teardown', 'notification+teardown'):
         return {(6, s) for s in range(0, 10)}, True
     raise core.HarnessError(f'no oracle for {fault_class}')
 
@@ -200,7 +207,7 @@ class Env(c05.Env):
             state = self.fsm()
             default = self.default_action().split(':')[0]
             for f, (_, cls) in FAULTS.items():
-                if cls == 'teardown' and state != 'ESTABLISHED':
+                if cls in ('teardown', 'notification+teardown') and state != 'ESTABLISHED':
                     continue
                 # the message the remote would send now anyway is not a fault
                 if f.startswith('unexp-open') and default == 'open':
@@ -238,6 +245,23 @@ class Env(c05.Env):
                 w.advance(self.hold + 3.5)
             elif cls == 'teardown':
                 w.api_write(b'peer * teardown %s\n' % arg.rsplit('-', 1)[1].encode())
+            elif cls == 'notification+teardown':
+                def feed():
+                    # where the peer's NOTIFICATION ends in the byte stream ExaBGP reads from this connection
+                    end = s.consumed + sum(len(x) for x in s.rx if isinstance(x, (bytes, bytearray))) + len(CROSS_NOTIF)
+                    w.event('mark-notif-end', s.index, end)
+                    s.feed(CROSS_NOTIF)
+                if arg == 'notif+teardown':
+                    feed()
+                    w.api_write(b'peer * teardown 2\n')
+                else:
+                    w.api_write(b'peer * teardown 2\n')
+                    if arg == 'teardown-then-notif':
+                        w.settle()
+                    elif arg == 'teardown-50ms-notif':
+                        w.settle()
+                        w.advance(0.05)
+                    feed()
         elif name == 'benign':
             if arg == 'split-next':
                 self.split_next = True
@@ -289,6 +313,28 @@ def oracle(sm: dict):
         allowed_set, may_continue = allowed(cls, state, fault, sm.get('hold', 9))
         ended = s['closed']
         outcome.append((fault, state, tuple(notifs), ended))
+        if cls == 'notification+teardown':
+            # order of events on that connection: the read that completes the peer's NOTIFICATION vs our own NOTIFICATION
+            end_mark = [e[3] for e in sm['events'] if e[1] == 'mark-notif-end' and e[2] == idx]
+            cum = 0
+            read_at = wrote_at = None
+            for pos, e in enumerate(sm['events']):
+                if e[1] == 'rx' and e[2] == idx:
+                    cum += e[3]
+                    if read_at is None and end_mark and cum >= end_mark[0]:
+                        read_at = pos
+                elif e[1] == 'tx' and e[2] == idx and len(e) > 4 and e[4] == wire.NOTIFICATION and e[0] >= t:
+                    wrote_at = pos
+            if read_at is not None and wrote_at is not None and wrote_at > read_at:
+                viols.append((f'answered-notification:crossing:{notifs[0][0] if notifs else "?"}/{notifs[0][1] if notifs else "?"}',
+                              f'{fault}: ExaBGP had read the whole NOTIFICATION of the peer (event {read_at}) and then wrote NOTIFICATION {notifs} (event {wrote_at})'))
+            if any(n[0] != 6 for n in notifs):
+                viols.append((f'wrong-code:{cls}:{state}:{notifs[0][0]}/{notifs[0][1]}', f'{fault}: NOTIFICATION {notifs} is not a Cease'))
+            if len(notifs) > 1:
+                viols.append((f'two-notifications:{cls}', f'{fault} in {state}: {len(notifs)} NOTIFICATIONs written: {notifs}'))
+            if not ended:
+                viols.append((f'not-closed-after-received-notification:{state}', f'{fault} in {state}: connection still open after the peer sent a NOTIFICATION and a teardown was asked'))
+            continue
         if cls == 'notification':
             if notifs:
                 viols.append((f'answered-notification:{notifs[0][0]}/{notifs[0][1]}', f'{fault} in {state}: a received NOTIFICATION was answered with NOTIFICATION {notifs}'))
